@@ -240,3 +240,19 @@ Definition supported (c : Z) : bool := ((0 <=? c) && (c <? 128)) || memz c x_let
 
 Definition run_text (s : str) : sx :=
   if forallb supported s then enc_pres (parse t_alnum t_num t_ws s) else L [A (-998)].
+
+(** QueryParser::parse (src/backward/query.rs): empty query -> Err; trim; an optional leading "NOT " (negated goal);
+    the rest through ExpressionParser::parse *)
+Definition w_not : list Z := [78; 79; 84; 32].
+Definition query_parse (is_alnum is_num is_ws : Z -> bool) (s : list Z) : res (bool * bexp) :=
+  match s with
+  | [] => Err O
+  | _ => let t := trim_with is_ws s in
+         let '(neg, q) := if starts t w_not then (true, skipn 4 t) else (false, t) in
+         match parse is_alnum is_num is_ws q with
+         | Ok e p => Ok (neg, e) p | Err p => Err p | Panic => Panic | Fuel => Fuel end
+  end.
+Definition enc_qres (r : res (bool * bexp)) : sx :=
+  match r with Ok (n, e) _ => L [A 0; L [L [sxB n; enc_bexp e]]] | Err _ => L [A 1; L []] | Panic => L [A 2; L []] | Fuel => L [A 4; L []] end.
+Definition run_query_text (s : str) : sx :=
+  if forallb supported s then enc_qres (query_parse t_alnum t_num t_ws s) else L [A (-998)].
